@@ -76,7 +76,10 @@ def gen(tier, rng):
         pairs = [(I32, I32), (I32, I64), (I64, I32), (I8, I8), (I32, I8), (I64, I16),
                  (U32, U32), (U32, U64), (U64, U32), (U8, U8),
                  (I32, U32), (I16, U64), (I64, U32), (I64, U64),
-                 (U32, I32), (U8, I8), (U64, I32), (U32, I64), (U64, U64), (I64, I64)]
+                 (U32, I32), (U8, I8), (U64, I32), (U32, I64), (U64, U64), (I64, I64),
+                 # operands below int that promote to (signed) int, where a product of two of them can leave int:
+                 # the one class in which "the operation is done in a wider type, so it fits" is false (seeded change M-C07-3)
+                 (U16, U16), (I16, U16), (I16, I16)]
         sig_pairs = [(I32, I32), (U32, I32), (I64, U64), (U8, U8)]
     else:
         ts = ALL64
